@@ -45,6 +45,10 @@ def render(call, mixed=False):
     out of the parentheses with '>' (r(ctx, s1(..)) > s2 > v)."""
     if mixed:
         return _render_mixed(call)
+    if (len(call.caps) == 1 and call.caps[0].var == "#value" and not call.children
+            and call.caps[0].alias != "#value" and not call.caps[0].focus and not call.caps[0].cond):
+        # written with the documented sugar: inside parentheses `S() as r` is a plain capture of S's return value
+        return f"{call.label}() as {call.caps[0].alias}"
     items = []
     for c in call.caps:
         t = ("!" if c.focus else "") + c.var
